@@ -244,7 +244,7 @@ def run(prop, tier, jobs=14, only=None):
     sel = select(metas, prop, tier, only)
     if not sel:
         return res
-    timeout_s = 900 if tier == "quick" else 5400
+    timeout_s = 1800 if tier == "quick" else 5400
     with common.WorkLock("kani"):
         crate = sync_crate()
         export = os.path.join(WORK, f"kani-{prop}-{tier}.json")
